@@ -198,3 +198,12 @@ package ingest
 //@   dyncall sets called = true
 //@   requires o != nil && o.overlay != nil && feature != nil
 //@   ensures called == !old(o.overlay.HasFeatureWithID(feature.FeatureID()))
+
+// Lookups by ID in a layered world ask the upper layer first.
+//@ func (*OverlayWorld).HasFeatureWithID
+//@   requires o != nil && o.overlay != nil && o.base != nil
+//@   ensures result == (o.overlay.HasFeatureWithID(id) || o.base.HasFeatureWithID(id))
+//@ func (*OverlayWorld).FindFeatureByID
+//@   requires o != nil && o.overlay != nil && o.base != nil
+//@   ensures implies(o.overlay.FindFeatureByID(id) != nil, result == o.overlay.FindFeatureByID(id))
+//@   ensures implies(o.overlay.FindFeatureByID(id) == nil, result == o.base.FindFeatureByID(id))
